@@ -23,5 +23,6 @@ META = dict(
 
 
 def run(ctx):
+    answercheck.run_corpus(ctx, "C01", judge_sat=False, judge_unsat=True)
     answercheck.sweep(ctx, "C01", 110 if ctx.quick else 2500, 3, judge_sat=False, judge_unsat=True,
                       gen_kwargs=dict(p_incremental=0.4, p_big=0.15, nassert=None, depth=None), all_configs=not ctx.quick and False)
